@@ -2,6 +2,7 @@ import ZCV.Lemmas.CodeEqDatatypes
 import ZCV.Lemmas.Datatypes
 import ZCV.Lemmas.Datatypes2Total
 import ZCV.Lemmas.Datatypes2Split
+import ZCV.Lemmas.Datatypes2IntSpace
 import ZCV.Lemmas.Datatypes2Octet
 import ZCV.Lemmas.Datatypes2V6
 import ZCV.Lemmas.Timedelta
@@ -158,8 +159,9 @@ example : DT.ipaddrOrHostname "1.2.3.4\n".toList = .error .valueError := by
 
 /-! ## integer -/
 
-/-- `integer` accepts exactly the integer literals — optional surrounding whitespace, an optional sign, digits of any
-    Unicode decimal-digit script with single underscores between digits — and returns the decimal value. -/
+/-- `integer` accepts exactly the integer literals — optional surrounding whitespace (the white space `int()` skips:
+    `str.isspace` characters other than the separator controls U+001C–U+001F, `DTSpec.AllIntSpace`), an optional sign,
+    digits of any Unicode decimal-digit script with single underscores between digits — and returns the decimal value. -/
 theorem C09_integer_spec (s : Str) (n : Int) : DT.integer s = .ok n ↔ DTSpec.IntLit s n := by
   rw [← DT.dt2_pyInt_iff]
   unfold DT.integer
@@ -213,8 +215,9 @@ example : DT.stringList " \t ".toList = [] := by decide
 
 /-- `float` accepts exactly the float literals of the grammar `DTSpec.FloatLit` — optional surrounding whitespace,
     an optional sign, then `inf`/`infinity`/`nan` in any letter case or a decimal number (digits with single
-    underscores, optional fraction, optional exponent) — and hands the stripped text to `float`. -/
-theorem C09_float_accepts (s : Str) : DT.floatConv s = .ok (.float (strip s)) ↔ DTSpec.FloatLit s := by
+    underscores, optional fraction, optional exponent) — and hands the text without the white space `float` skips
+    (`stripInt`: `str.isspace` minus U+001C–U+001F) to `float`. -/
+theorem C09_float_accepts (s : Str) : DT.floatConv s = .ok (.float (stripInt s)) ↔ DTSpec.FloatLit s := by
   rw [← DT.dt2_floatOk_iff]
   unfold DT.floatConv
   cases DT.floatOk s <;> simp
@@ -227,24 +230,27 @@ theorem C09_float_reject (s : Str) : DT.floatConv s = .error .valueError ↔ ¬ 
 
 /-- Every text `integer` accepts, `float` accepts. -/
 theorem C09_float_accepts_integers (s : Str) (n : Int) (h : DT.integer s = .ok n) :
-    DT.floatConv s = .ok (.float (strip s)) :=
+    DT.floatConv s = .ok (.float (stripInt s)) :=
   (C09_float_accepts s).mpr (DT.dt2_intLit_floatLit s n ((C09_integer_spec s n).mp h))
 
 /-- The special words, in any letter case, with an optional sign and surrounding whitespace. -/
-theorem C09_float_accepts_words (pre sg t post : Str) (hpre : DTSpec.AllSpace pre) (hpost : DTSpec.AllSpace post)
+theorem C09_float_accepts_words (pre sg t post : Str) (hpre : DTSpec.AllIntSpace pre) (hpost : DTSpec.AllIntSpace post)
     (hsg : DTSpec.IsSign sg)
     (ht : asciiLower t = "inf".toList ∨ asciiLower t = "infinity".toList ∨ asciiLower t = "nan".toList) :
-    DT.floatConv (pre ++ sg ++ t ++ post) = .ok (.float (strip (pre ++ sg ++ t ++ post))) :=
+    DT.floatConv (pre ++ sg ++ t ++ post) = .ok (.float (stripInt (pre ++ sg ++ t ++ post))) :=
   (C09_float_accepts _).mpr ⟨pre, sg, t, post, rfl, hpre, hpost, hsg, Or.inl ht⟩
 
-/-- The empty string (and any all-whitespace string) is rejected. -/
+/-- The empty string (and any all-whitespace string, whichever white space: `str.isspace`) is rejected. -/
 theorem C09_float_rejects_blank (s : Str) (h : DTSpec.AllSpace s) : DT.floatConv s = .error .valueError := by
-  have hs : strip s = [] := by
-    have := DT.dt2_strip_mid s [] [] h (fun c hc => by simp at hc) (Or.inl rfl)
-    simpa using this
-  unfold DT.floatConv
-  rw [DT.dt2_floatOk_eq, hs]
-  rfl
+  rw [C09_float_reject]
+  rintro ⟨pre, sg, t, post, rfl, _, _, _, ht⟩
+  have hsolid : DT.dt2Solid t := by
+    rcases ht with h | h
+    · exact DT.dt2_floatWord_solid t h
+    · exact DT.dt2_floatNum_solid t h
+  obtain ⟨⟨c, r, rfl, h1, _, _⟩, _⟩ := hsolid
+  have := h c (by simp)
+  rw [h1] at this; cases this
 
 example : DT.floatConv [] = .error .valueError := C09_float_rejects_blank [] (fun c hc => by cases hc)
 
@@ -905,5 +911,127 @@ theorem C09_code_socketAddress_spec (s : Str) :
   · rw [code_socket_address_eq, ← C09_socketAddress_spec]; exact embedSock_famName _
   · rw [code_socket_binding_address_eq, ← C09_socketAddress_spec]; exact embedSock_famName _
   · rw [code_socket_connection_address_eq, ← C09_socketAddress_spec]; exact embedSock_famName _
+
+/-! ## the white space `int()` / `float()` skip is NOT `str.isspace`
+
+CPython maps non-ASCII white space to a blank before parsing a number and leaves ASCII characters alone; the parsers
+then skip C `isspace` characters only.  The separator controls U+001C–U+001F are therefore white space for
+`str.strip()`, `str.split()` and `\s` and are NOT skipped by `int()` / `float()`: `int('\x1c1')` is a `ValueError`
+while `'\x1c1'.strip() == '1'`.  The set is not assumed: `Gen.intSpaceExcluded` is computed from the running
+interpreter on every run (`extract.py`, `gen_unicode`). -/
+
+/-- The four separator controls are `str.isspace` white space and are in the generated table of the code points
+    `int()` / `float()` do not skip. -/
+theorem C09_separator_controls (c : Char) (h : c = '\x1c' ∨ c = '\x1d' ∨ c = '\x1e' ∨ c = '\x1f') :
+    pySpace c = true ∧ c.toNat ∈ Gen.intSpaceExcluded ∧ intSpace c = false :=
+  have hc := DT.dt2_separator_controls_excluded c h
+  ⟨(DT.dt2_excluded_space c hc).1, hc, (DT.dt2_excluded_space c hc).2⟩
+
+/-- Every code point of the generated table, at the start or at the end of a text, makes `integer` fail — whatever the
+    rest of the text is. -/
+theorem C09_integer_rejects_excluded (c : Char) (hc : c.toNat ∈ Gen.intSpaceExcluded) (s : Str) :
+    DT.integer (c :: s) = .error .valueError ∧ DT.integer (s ++ [c]) = .error .valueError := by
+  rw [C09_integer_reject, C09_integer_reject]
+  exact ⟨fun ⟨n, hn⟩ => (DT.dt2_intLit_excluded c hc s n).1 hn, fun ⟨n, hn⟩ => (DT.dt2_intLit_excluded c hc s n).2 hn⟩
+
+/-- For the four separator controls `c` (U+001C, U+001D, U+001E, U+001F) and every text `s`: `integer (c + s)` and
+    `integer (s + c)` are `ValueError`s (although `(c + s).strip()` is `s.strip()`). -/
+theorem C09_integer_rejects_separator_controls (c : Char) (h : c = '\x1c' ∨ c = '\x1d' ∨ c = '\x1e' ∨ c = '\x1f')
+    (s : Str) : DT.integer (c :: s) = .error .valueError ∧ DT.integer (s ++ [c]) = .error .valueError :=
+  C09_integer_rejects_excluded c (DT.dt2_separator_controls_excluded c h) s
+
+/-- The characters `integer` strips are exactly the `str.isspace` characters outside the generated table: `c` can be
+    put in front of and behind EVERY text without changing the outcome iff it is one of them. -/
+theorem C09_integer_strips_exactly (c : Char) :
+    (∀ s, DT.integer (c :: s) = DT.integer s ∧ DT.integer (s ++ [c]) = DT.integer s) ↔
+      (pySpace c = true ∧ c.toNat ∉ Gen.intSpaceExcluded) := by
+  rw [← DT.dt2_intSpace_iff]
+  constructor
+  · intro h
+    cases hi : intSpace c with
+    | true => rfl
+    | false =>
+      exfalso
+      have h1 := (h ['1']).2
+      have h2 : DT.integer ['1'] = .ok 1 := by decide
+      rw [h2] at h1
+      unfold DT.integer at h1
+      have := DT.dt2_pyInt_one_snoc c hi
+      change (match pyInt ['1', c] with | some n => (Except.ok n : DT.R Int) | none => .error .valueError) = .ok 1 at h1
+      cases hp : pyInt ['1', c] with
+      | none => rw [hp] at h1; cases h1
+      | some n =>
+        rw [hp] at h1 this
+        injection h1 with h1
+        exact this (by rw [h1])
+  · intro hi s
+    unfold DT.integer
+    rw [DT.dt2_pyInt_stripInt _ _ (DT.dt2_stripInt_cons c s hi), DT.dt2_pyInt_stripInt _ _ (DT.dt2_stripInt_snoc c s hi)]
+    exact ⟨rfl, rfl⟩
+
+/-- The same for `float`: every code point of the generated table at either end of a text is refused. -/
+theorem C09_float_rejects_excluded (c : Char) (hc : c.toNat ∈ Gen.intSpaceExcluded) (s : Str) :
+    DT.floatConv (c :: s) = .error .valueError ∧ DT.floatConv (s ++ [c]) = .error .valueError := by
+  rw [C09_float_reject, C09_float_reject]
+  exact DT.dt2_floatLit_excluded c hc s
+
+/-- For the four separator controls `c` and every text `s`: `float (c + s)` and `float (s + c)` are `ValueError`s. -/
+theorem C09_float_rejects_separator_controls (c : Char) (h : c = '\x1c' ∨ c = '\x1d' ∨ c = '\x1e' ∨ c = '\x1f')
+    (s : Str) : DT.floatConv (c :: s) = .error .valueError ∧ DT.floatConv (s ++ [c]) = .error .valueError :=
+  C09_float_rejects_excluded c (DT.dt2_separator_controls_excluded c h) s
+
+/-- The characters `float` strips are exactly the `str.isspace` characters outside the generated table (the outcome
+    includes the text handed on: it is the same text). -/
+theorem C09_float_strips_exactly (c : Char) :
+    (∀ s, DT.floatConv (c :: s) = DT.floatConv s ∧ DT.floatConv (s ++ [c]) = DT.floatConv s) ↔
+      (pySpace c = true ∧ c.toNat ∉ Gen.intSpaceExcluded) := by
+  rw [← DT.dt2_intSpace_iff]
+  constructor
+  · intro h
+    cases hi : intSpace c with
+    | true => rfl
+    | false =>
+      exfalso
+      have h1 := (h ['i', 'n', 'f']).2
+      have h2 : DT.floatConv ['i', 'n', 'f'] = .ok (.float ['i', 'n', 'f']) := by
+        unfold DT.floatConv
+        rw [show DT.floatOk ['i', 'n', 'f'] = true by decide, show stripInt ['i', 'n', 'f'] = ['i', 'n', 'f'] by decide]
+        rfl
+      rw [h2] at h1
+      have h3 : DT.floatConv (['i', 'n', 'f'] ++ [c]) = .error .valueError := by
+        unfold DT.floatConv
+        rw [show ['i', 'n', 'f'] ++ [c] = ['i', 'n', 'f', c] from rfl, DT.dt2_floatOk_inf_snoc c hi]
+        rfl
+      rw [h3] at h1; cases h1
+  · intro hi s
+    exact ⟨DT.dt2_floatConv_stripInt _ _ (DT.dt2_stripInt_cons c s hi), DT.dt2_floatConv_stripInt _ _ (DT.dt2_stripInt_snoc c s hi)⟩
+
+/-- What the two white-space classes look like: `strip` removes a separator control, `int` does not skip it. -/
+example : strip "\x1c1".toList = "1".toList ∧ DT.integer "\x1c1".toList = .error .valueError := by decide
+example : DT.integer "1\x1f".toList = .error .valueError := by decide
+example : DT.integer " 1\x1f".toList = .error .valueError := by decide
+example : DT.integer "\x851".toList = .ok 1 := by decide          -- NEL: not ASCII, mapped to a blank, skipped
+example : DT.integer " 1".toList = .ok 1 := by decide
+example : DT.integer "　1 ".toList = .ok 1 := by decide
+example : DT.integer "+\x1c1".toList = .error .valueError := by decide
+example : DT.floatConv "\x1c1".toList = .error .valueError :=
+  (C09_float_reject _).mpr (fun h => absurd ((DT.dt2_floatOk_iff _).mpr h) (by decide))
+example : DT.floatConv "1.5\x1f".toList = .error .valueError :=
+  (C09_float_reject _).mpr (fun h => absurd ((DT.dt2_floatOk_iff _).mpr h) (by decide))
+example : DT.floatOk "\x851".toList = true ∧ stripInt "\x851".toList = "1".toList := by decide
+example : DT.floatOk " 1".toList = true ∧ stripInt " 1".toList = "1".toList := by decide
+example : DTSpec.FloatLit "\x85-1.5e3　".toList := (DT.dt2_floatOk_iff _).mp (by decide)
+example : ¬ DTSpec.FloatLit " 1\x1c".toList := fun h => absurd ((DT.dt2_floatOk_iff _).mpr h) (by decide)
+example : ¬ ∃ n, DTSpec.IntLit "\x1c1".toList n := (C09_integer_reject _).mp (by decide)
+example : DT.integer "\x1c1".toList = .error .valueError := (C09_integer_rejects_separator_controls _ (Or.inl rfl) _).1
+example : DT.floatConv "nan\x1e".toList = .error .valueError :=
+  (C09_float_rejects_separator_controls _ (Or.inr (Or.inr (Or.inl rfl))) "nan".toList).2
+/-- the finding that exposed the model: `time-interval('1\x1ch')` is `int('1\x1c')`, a `ValueError` -/
+example : DT.timeInterval "1\x1ch".toList = .error .valueError := by decide
+example : DT.timeInterval "1\x85h".toList = .ok 3600 := by decide
+example : DT.portNumber "80\x1c".toList = .error .valueError := by decide
+example : DT.byteSize "\x1d1kb".toList = .error .valueError := by decide
+/-- `timedelta` splits at `str.isspace` white space first: the separator control ends the word, `float('')` fails -/
+example : DT.timedelta "1\x1ch".toList = .error .valueError := by decide
 
 end ZCV.Props.C09
